@@ -33,6 +33,11 @@ def c20 (toks : List String) : String :=
     match m.toNat?, l.toNat?, (if h == "-" then some [] else charsOfHex h) with
     | some m, some l, some t => if loggable m l t then "1" else "0"
     | _, _, _ => "bad-op"
+  | ["written", _logger, m, l, h] =>
+    -- both loggers of the endpoint write exactly what the filter lets through
+    match m.toNat?, l.toNat?, (if h == "-" then some [] else charsOfHex h) with
+    | some m, some l, some t => if loggable m l t then "1" else "0"
+    | _, _, _ => "bad-op"
   | ["scrubsni", h] =>
     match charsOfHex h with
     | some s => hexOfChars (scrubSni s)
